@@ -35,9 +35,10 @@ def project(b, raw=False):
     """Block -> JSON-able projection (kind, type, key, fields, content), whitespace-trimmed."""
     k = block_kind(b)
     if k == "entry":
-        p = ["entry", b.entry_type, _s(b.key), [[_s(f.key), _s(f.value)] for f in b.fields]]
+        # keys are compared exactly (a KEY token has no surrounding whitespace); values up to whitespace
+        p = ["entry", b.entry_type, b.key, [[f.key, _s(f.value)] for f in b.fields]]
     elif k == "string":
-        p = ["string", _s(b.key), _s(b.value)]
+        p = ["string", b.key, _s(b.value)]
     elif k == "preamble":
         p = ["preamble", _s(b.value)]
     elif k in ("ecomment", "icomment"):
@@ -57,9 +58,9 @@ def strip_truth(truth):
     out = []
     for t in truth:
         if t[0] == "entry":
-            out.append(["entry", t[1], t[2].strip(), [[a.strip(), b.strip()] for a, b in t[3]]])
+            out.append(["entry", t[1], t[2], [[a, b.strip()] for a, b in t[3]]])
         else:
-            out.append([t[0]] + [x.strip() if isinstance(x, str) else x for x in t[1:]])
+            out.append([t[0], t[1], t[2].strip()] if t[0] == "string" else [t[0]] + [x.strip() if isinstance(x, str) else x for x in t[1:]])
     return out
 
 
